@@ -173,7 +173,7 @@ def _builder_shape(core):
             seen_loop = True
             continue
         ch = op_chain(n["args"][0])
-        if not seen_loop:
+        if not seen_loop and loop_op is not None:
             why.append("an operator is registered before the infix groups: %s" % ch)
         tail.append(ch)
     if loop_op is not None:
